@@ -489,3 +489,117 @@ pub fn tokens(emu: u8, with_resize: bool, max_tokens: usize) -> BoxedStrategy<Ve
 pub fn has_macro_invoke(bytes: &[u8]) -> bool {
     bytes.windows(2).any(|w| w == b"*z") || bytes.windows(4).any(|w| w.eq_ignore_ascii_case(b"2A7A"))
 }
+
+// ---------------------------------------------------------------------------------------------------- exhaustive token alphabet
+
+fn alit(b: &[u8]) -> Piece {
+    Piece::Lit(b.to_vec())
+}
+fn acsi1(p: Sym, tail: &[u8]) -> Tok {
+    vec![alit(b"\x1b["), Piece::Num(p), alit(tail)]
+}
+fn acsi2(p: Sym, q: Sym, tail: &[u8]) -> Tok {
+    vec![alit(b"\x1b["), Piece::Num(p), alit(b";"), Piece::Num(q), alit(tail)]
+}
+
+/// The ~70-token alphabet of the exhaustive part (ANSI emulation). No text-area resize request in it.
+pub fn alphabet() -> Vec<Tok> {
+    let mut a: Vec<Tok> = Vec::new();
+    // printables
+    a.push(vec![alit(b"A")]);
+    a.push(vec![Piece::Run(b'x', Sym::WMinus1, 0)]);
+    a.push(vec![Piece::Run(b'y', Sym::W, 0)]);
+    // C0
+    for c in [8u8, 9, 10, 13, 12, 0x7F] {
+        a.push(vec![alit(&[c])]);
+    }
+    // ESC x
+    for c in b"78cDMEH" {
+        a.push(vec![alit(&[0x1B, *c])]);
+    }
+    // cursor position
+    a.push(vec![alit(b"\x1b[H")]);
+    a.push(acsi2(Sym::H, Sym::W, b"H"));
+    a.push(acsi2(Sym::HPlus1, Sym::WPlus1, b"H"));
+    a.push(acsi2(Sym::Max, Sym::Max, b"f"));
+    a.push(acsi2(Sym::Lit(0), Sym::Lit(0), b"H"));
+    // relative / absolute moves with the parameter set {none,1,mid,size,size+1,9999} spread over the finals
+    a.push(vec![alit(b"\x1b[A")]);
+    a.push(acsi1(Sym::HPlus1, b"A"));
+    a.push(acsi1(Sym::Max, b"k"));
+    a.push(vec![alit(b"\x1b[B")]);
+    a.push(acsi1(Sym::H, b"B"));
+    a.push(acsi1(Sym::Max, b"B"));
+    a.push(vec![alit(b"\x1b[C")]);
+    a.push(acsi1(Sym::W, b"C"));
+    a.push(acsi1(Sym::Max, b"C"));
+    a.push(acsi1(Sym::WHalf, b"D"));
+    a.push(acsi1(Sym::Max, b"j"));
+    a.push(acsi1(Sym::Lit(0), b"D"));
+    a.push(acsi1(Sym::Lit(1), b"E"));
+    a.push(acsi1(Sym::Max, b"E"));
+    a.push(acsi1(Sym::Lit(1), b"F"));
+    a.push(acsi1(Sym::Max, b"F"));
+    a.push(acsi1(Sym::WPlus1, b"G"));
+    a.push(acsi1(Sym::Lit(0), b"G"));
+    a.push(acsi1(Sym::HPlus1, b"d"));
+    a.push(acsi1(Sym::Lit(0), b"d"));
+    a.push(acsi1(Sym::Max, b"e"));
+    a.push(acsi1(Sym::Max, b"a"));
+    a.push(acsi1(Sym::WPlus1, b"'"));
+    // tabs
+    a.push(acsi1(Sym::Lit(1), b"Y"));
+    a.push(acsi1(Sym::B255, b"Y"));
+    a.push(acsi1(Sym::Lit(1), b"Z"));
+    a.push(acsi1(Sym::B255, b"Z"));
+    a.push(vec![alit(b"\x1b[3g")]);
+    a.push(vec![alit(b"\x1b[2 d")]);
+    // margins / origin / wrap
+    a.push(acsi2(Sym::Lit(2), Sym::HMinus1, b"r"));
+    a.push(acsi2(Sym::HHalf, Sym::HHalf, b"r"));
+    a.push(acsi2(Sym::Lit(0), Sym::HPlus1, b"r"));
+    a.push(acsi2(Sym::H, Sym::Lit(1), b"r"));
+    a.push(vec![alit(b"\x1b[r")]);
+    a.push(vec![alit(b"\x1b[?69h")]);
+    a.push(acsi2(Sym::Lit(2), Sym::WMinus1, b"s"));
+    a.push(acsi2(Sym::WHalf, Sym::WPlus1, b"s"));
+    a.push(vec![alit(b"\x1b[?69l")]);
+    a.push(vec![alit(b"\x1b[?6h")]);
+    a.push(vec![alit(b"\x1b[?7l")]);
+    a.push(vec![alit(b"\x1b[?7h")]);
+    a.push(vec![alit(b"\x1b[=r")]);
+    a.push(acsi2(Sym::Lit(0), Sym::HHalf, b"=m"));
+    a.push(vec![alit(b"\x1b[1;"), Piece::Num(Sym::HHalf), alit(b";2;"), Piece::Num(Sym::WHalf), alit(b"r")]);
+    // save / restore / reset
+    a.push(vec![alit(b"\x1b[s")]);
+    a.push(vec![alit(b"\x1b[u")]);
+    a.push(vec![alit(b"\x1b[!p")]);
+    // scroll / insert / delete / erase (counts bounded by the screen: magnitude is C03's subject)
+    a.push(acsi1(Sym::Lit(1), b"S"));
+    a.push(acsi1(Sym::HPlus1, b"S"));
+    a.push(acsi1(Sym::Lit(1), b"T"));
+    a.push(acsi1(Sym::HPlus1, b"T"));
+    a.push(acsi1(Sym::Lit(1), b"L"));
+    a.push(acsi1(Sym::H, b"M"));
+    a.push(acsi1(Sym::WHalf, b"@"));
+    a.push(acsi1(Sym::WPlus1, b"P"));
+    a.push(acsi1(Sym::WPlus1, b"X"));
+    a.push(vec![alit(b"\x1b[2J")]);
+    a.push(vec![alit(b"\x1b[J")]);
+    a.push(vec![alit(b"\x1b[1K")]);
+    a.push(acsi1(Sym::W, b"b"));
+    a.push(vec![alit(b"\x1b[4h")]);
+    // single-edge margin updates with parameter 0 / 1 / beyond the screen, whole-region setters with 0
+    for k in 0..4u32 {
+        a.push(acsi2(Sym::Lit(k), Sym::Lit(0), b"=m"));
+    }
+    a.push(acsi2(Sym::Lit(1), Sym::HPlus1, b"=m"));
+    a.push(acsi2(Sym::Lit(3), Sym::WPlus1, b"=m"));
+    a.push(acsi2(Sym::Lit(0), Sym::Lit(0), b"r"));
+    a.push(acsi2(Sym::Lit(0), Sym::Lit(0), b"s"));
+    // key emulation
+    a.push(vec![alit(b"\x1b[4~")]);
+    a.push(vec![alit(b"\x1b[1~")]);
+    a
+}
+
